@@ -174,7 +174,7 @@ func (w *World) CredAround(owner string, basicOnly bool) (Cred, string) {
 	case k < 14:
 		return good(drv.Pick(w.R, others)), "foreign"
 	case k < 16:
-		return GoodCred(drv.Pick(w.R, []string{"native", "spa"})), "public"
+		return w.PublicCred(), "public"
 	case k < 17:
 		return Cred{Kind: "basic", ID: owner, Sec: "wrong-secret"}, "badsecret"
 	case k < 18:
@@ -304,3 +304,20 @@ func (w *World) ConfusedExchange(r opfix.Router) bool {
 // ExchangeCred is the identity since the model follows /repo HEAD (Legacy token exchange refuses
 // public clients, fix Fxx-C05-3); kept so that callers read the same.
 func ExchangeCred(r opfix.Router, c Cred) Cred { return c }
+
+// PublicCred: a public client (auth method none) identifying itself in every way a request can -
+// client_id only, an empty or an arbitrary secret, in the form or in a Basic header.
+func (w *World) PublicCred() Cred {
+	id := drv.Pick(w.R, []string{"native", "spa"})
+	switch w.R.IntN(5) {
+	case 0:
+		return Cred{Kind: "basic", ID: id}
+	case 1:
+		return Cred{Kind: "basic", ID: id, Sec: "anything"}
+	case 2:
+		return Cred{Kind: "post", ID: id, Sec: "anything"}
+	case 3:
+		return Cred{Kind: "both", ID: id, Sec: "anything", FormID: "web"}
+	}
+	return Cred{Kind: "post", ID: id}
+}
